@@ -4,7 +4,6 @@ import (
 	"fmt"
 	"os"
 	"reflect"
-	"runtime/pprof"
 
 	"github.com/osmosis-labs/osmosis/v31/zzverif/core"
 )
@@ -192,11 +191,6 @@ func main() {
 	r.Extra["sum_shrink_runs"] = int64(0)
 	r.Extra["sum_raw_failing_points"] = int64(0)
 	r.Extra["max_epochs_per_config"] = int64(0)
-	if pf := os.Getenv("C18_CPUPROFILE"); pf != "" {
-		fh, _ := os.Create(pf)
-		pprof.StartCPUProfile(fh)
-		defer pprof.StopCPUProfile()
-	}
 	if f.Replay != "" {
 		runReplay(f, r)
 		core.Finish(f, r)
